@@ -321,6 +321,10 @@ impl<L: ChainListener> ChainTracker<L> {
         // - `ChainTrackerPushListener` checks 1 vs 3
         // - `validate_block` checks 2 vs 4
 
+        // consume a streamed block first, so that a refused removal leaves no stream pending
+        let tip_block_hash = self.tip.0.block_hash();
+        self.maybe_finish_decoding_block(&proof, &tip_block_hash)?;
+
         if self.headers.is_empty() {
             if self.allow_deep_reorgs {
                 warn!("reorg too deep, but allowed by flag");
@@ -351,9 +355,6 @@ impl<L: ChainListener> ChainTracker<L> {
         };
 
         let mut prev_headers = supplied_prev_headers;
-
-        let tip_block_hash = self.tip.0.block_hash();
-        self.maybe_finish_decoding_block(&proof, &tip_block_hash)?;
 
         // we assume here that the external block hash and the tip block hash are the same
         // this is actually validated below in notify_listeners_remove
